@@ -6,7 +6,7 @@ EXTENDS Search, Frontier
 Idle == [nv |-> 0, E |-> <<>>, hd |-> <<>>, src |-> 0, dst |-> 0, dir |-> "fwd", wd |-> 1, wt |-> 0,
          rd |-> 1, rt |-> 1, sur |-> <<>>, acc |-> "none", delay |-> [i \in 1..8 |-> 0], ok |-> <<>>,
          bad |-> {}, h |-> <<>>, itl |-> -1, szl |-> -1, init |-> <<0, 0>>, ties |-> TRUE,
-         orient |-> "vertex", osrc |-> 0, odst |-> 0, cu |-> <<1000, 1, 1000, 1>>, rtf |-> 0, rtx |-> FALSE]
+         orient |-> "vertex", osrc |-> 0, odst |-> 0, cu |-> <<1000, 1, 1000, 1>>, rtf |-> 0, rtx |-> FALSE, bb |-> FALSE]
 
 (* milli-cost per metre / per second of state change, from the units the STATE FEATURES are declared in
    (costs are charged on the feature's own numbers); the units the traversal / access models compute in
@@ -26,7 +26,8 @@ ScnOf(ev) ==
                                    /\ (ev.veh_on => VehicleOK(ev.vrestr[e], ev.veh))],     \* every model must permit the edge
     bad |-> {<<ev.bad[i][1], ev.bad[i][2]>> : i \in DOMAIN ev.bad},
     h |-> ev.h, itl |-> ev.itl, szl |-> ev.szl, init |-> ev.init, ties |-> TRUE,
-    orient |-> ev.orient, osrc |-> ev.osrc, odst |-> ev.odst, cu |-> CuOf(ev), rtf |-> ev.rtf, rtx |-> ev.rtx]
+    orient |-> ev.orient, osrc |-> ev.osrc, odst |-> ev.odst, cu |-> CuOf(ev), rtf |-> ev.rtf, rtx |-> ev.rtx,
+    bb |-> ("bb" \in DOMAIN ev) /\ ev.bb]      \* black box: only Setup and End were recorded
 
 Abs(x) == IF x < 0 THEN -x ELSE x
 
